@@ -31,17 +31,50 @@ def tie_margin(col, step):
     return float(np.min(np.abs(d - step)))
 
 
-def call_cv(phase, good, mask, step, edge):
+def step_of(case):
+    """phase_step of a case: None = the default; 0 is a value like any other (NOT `case.get('step') or DEFAULT`)"""
+    st = case.get('step')
+    return DEFAULT_STEP if st is None else st
+
+
+def edge_of(case):
+    e = case.get('edge')
+    return DEFAULT_EDGE if e is None else e
+
+
+CALLS = ('kw', 'pos', 'posall', 'alias')
+
+
+def call_cv(phase, good, mask, step, edge, call='kw', readonly=False, report=None):
+    """emd.cycles.get_cycle_vector through its documented signature
+        get_cycle_vector(phase, return_good=True, mask=None, imf=None, phase_step=1.5*pi, phase_edge=pi/12)
+    call='kw': options by keyword; 'pos': return_good (and the mask, when there is one) positionally; 'posall': every argument
+    positionally; 'alias': the deprecated pass-through emd.cycles.get_cycle_inds with positional return_good / mask.
+    The implementation is handed WRITABLE arrays (the properties speak about phase values, not numpy flags) unless readonly=True;
+    `report` (a dict) receives 'modified': True when the phase / mask array no longer holds its values after the call."""
     import emd
+    ph0 = np.array(phase, dtype=float)
+    m0 = None if mask is None else np.array(mask, dtype=bool)
+    ph = ph0.copy()
+    m = None if m0 is None else m0.copy()
+    if readonly:
+        ph.setflags(write=False)
+        if m is not None:
+            m.setflags(write=False)
     kw = {}
     if step is not None:
         kw['phase_step'] = step
     if edge is not None:
         kw['phase_edge'] = edge
-    ph = np.array(phase, dtype=float)
-    ph.setflags(write=False)
-    m = None if mask is None else np.array(mask, dtype=bool)
-    out = emd.cycles.get_cycle_vector(ph, return_good=bool(good), mask=m, **kw)
+    fn = emd.cycles.get_cycle_inds if call == 'alias' else emd.cycles.get_cycle_vector
+    if call == 'posall':
+        out = fn(ph, bool(good), m, None, DEFAULT_STEP if step is None else step, DEFAULT_EDGE if edge is None else edge)
+    elif call in ('pos', 'alias'):
+        out = fn(ph, bool(good), m, **kw) if m is not None else fn(ph, bool(good), **kw)
+    else:
+        out = fn(ph, return_good=bool(good), mask=m, **kw)
+    if report is not None:
+        report['modified'] = bool(not np.array_equal(ph, ph0) or (m is not None and not np.array_equal(m, m0)))
     out = np.asarray(out)
     if out.ndim == 1:
         out = out[:, None]
@@ -90,13 +123,33 @@ def check_partition(col, labels, step, good, masked, prefix=''):
     return fs
 
 
+TIE = 1e-9
+
+
 def good_oracle(seg, edge):
-    """The four documented criteria (control points are True without a waveform)."""
+    """The documented criteria on one wrap-delimited segment (control points are True without a waveform), THREE-valued:
+    True / False, or None when the verdict hinges on a value lying exactly AT a tolerance bound. C13 says "starts within the edge
+    tolerance above 0, ends within the edge tolerance below 2pi": that fixes every value strictly inside and strictly outside the
+    tolerance, it does not say whether a start of exactly phase_edge (or exactly 0), or an end of exactly 2pi - phase_edge, counts
+    (the code uses closed intervals, the docstring of is_good strict ones: "0 < x < phase_edge"). Such segments are not judged."""
     seg = [float(v) for v in seg]
     inc = all(b > a for a, b in zip(seg, seg[1:]))
-    start = 0 <= seg[0] <= edge
-    end = (TWO_PI - edge) <= seg[-1] <= TWO_PI
-    return inc and start and end
+
+    def within(x, lo, hi):
+        if abs(x - lo) <= TIE or abs(x - hi) <= TIE:
+            return None
+        return lo < x < hi
+    start = within(seg[0], 0.0, edge)
+    end = within(seg[-1], TWO_PI - edge, TWO_PI)
+    if not inc or start is False or end is False:
+        return False
+    if start is None or end is None:
+        return None
+    return True
+
+
+def has_boundary_tie(col, step, edge):
+    return any(good_oracle(col[a:b], edge) is None for a, b in segments_of(col, step))
 
 
 def segments_of(col, step):
@@ -120,6 +173,17 @@ def synth_phase(rng, n, reversing=True):
         if reversing and rng.random() < 0.03:
             dph = -dph * rng.random()
         ph += dph
+    return out
+
+
+def fast_phase(rng, ncycles):
+    """A very fast / coarsely sampled oscillation: 2-4 samples per cycle, so that steps INSIDE a cycle lie between pi and the wrap
+    threshold (an advance of more than pi is still an advance: round-2 seed C13-4 np.unwrap-ed it into a decrease)."""
+    out = []
+    for _ in range(ncycles):
+        k = rng.choice([2, 3, 3, 4])
+        s, e = rng.uniform(0.02, 0.5), rng.uniform(TWO_PI - 0.5, TWO_PI - 0.02)
+        out += [s] + sorted(rng.uniform(s + 0.05, e - 0.05) for _ in range(k - 2)) + [e]
     return out
 
 
